@@ -53,6 +53,13 @@ def generate(rng, tier, index):
         edge = sorted(n for n in pool if pool[n].group == "edge" and pool[n].tags.get("lines", 0) < 300)
         name = rng.choice(edge)
         docs[rng.randrange(len(docs))] = (name, pool[name].data)
+    if rng.random() < 0.15:
+        from .. import corpus
+
+        pool = corpus.load()
+        # documents whose diagnostics come from iterating a collection of identifiers
+        name = rng.choice(["pr_bad_multi", "pr_bad_multi", "pr_bad", "pr_disable_open", "pr_num_lines_eof"])
+        docs[rng.randrange(len(docs))] = (name, pool[name].data)
     files, labels = workload.assign_names(rng, docs)
     selection = rng.choice(["default", "default", "all", "alone", "random"])
     flags = []
